@@ -5,7 +5,7 @@ from . import common as C
 MANIFEST = dict(
    technique="Lean 4 proof (case analysis over the fast paths of ParsePrimitiveStrict against ParsePrimitive, reusing the C10 check-engine theorems; ParseComplexStrict against ParseComplex for arbitrary validators, extractors and transforms; statement-by-statement transcriptions of the four type-local (Parse, StrictParse) pairs - BigInt, File, Function, Struct - with their own agreement theorems; the six entry points assembled from a (Parse, StrictParse) pair by the fwd / must wrapper shapes (Cpx.six); induction over histories of constructor calls, copy-on-write derivations, CloneFrom of both flavours and entry-point calls on a heap of schemas with per-schema hidden state; evaluation of the whole entry-point table, including the resolution of promoted methods through embedded schemas) + go/ast translator over types/*.go regenerating the table of how every entry point of every schema type is implemented and the source text of every statement around its engine call + differential correspondence: real String()/StringPtr() schemas, string and integer histories (primitive path: Prim.parse / Prim.strictParse through Cpx.six), and real schemas of the thirteen complex-path types (Slice, Array, Map, Object, Record, Set, Tuple, Union, Xor, Intersection, File, Function, Struct) run through Cpx.parse / Cpx.strictParse / TypeLocal.file..., func..., struct... / Cpx.must / Cpx.fwd with the configuration read off the real schema's internals and the validator's answers read off the unmodified schema + in-harness comparison of all six entry points on every schema type of the table and on every zero-argument constructor of the library (value, pointer and Coerced variants), on well-typed and ill-typed inputs, cold and after histories",
    text="c09_strict_eq_parse proves for the primitive engine path that StrictParse and Parse yield the same verdict, value and issue positions for every check list, every modifier configuration and every input of the strict static type (nil pointers included). c09_complex_strict_eq_parse proves the same for the complex engine path as it is after 692881a, for every validator, every behaviour of the extractors, every transform and every input, well-typed or not (the legacy function is kept as legacyStrictParse with four witnesses and legacy_not_agreeing). The clause about ParseAny and the Must variants is carried by the go/ast shape table: c09_table_wrappers and c09_table_bases are decided over the whole table regenerated from types/*.go on every run (53 schema types x 6 entry points) and say that on every type ParseAny is 'return z.Parse(input, ctx...)' and each Must variant is 'r, err := z.X(...); if err != nil { panic(err) }; return r' of its base entry point, promotion through embedded schemas followed; Cpx.six assembles the six entry points from a (Parse, StrictParse) pair by exactly these two shapes, and c09_six_agree / c09_six_any_follow_parse / c09_must_returns_or_panics say what the shapes do (where the pair agrees on an input all six answer with Parse's result, a Must variant by returning it or panicking with that very error; ParseAny / MustParse / MustParseAny follow Parse on every input whatever StrictParse does) - no theorem states 'ParseAny = Parse' about the model itself, where it would be reflexivity. c09_table_as_expected and c09_table_covered: every (Parse, StrictParse) pair is the bare engine pair the agreement theorems cover, is inherited from an embedded schema that is, answers StrictParse with 'return z.Parse(input, ctx...)', or is one of four transcribed type-local implementations (c09_table_transcribed pins both rows and the text of every statement around the engine call; c09_bigint_strict_eq_parse, c09_file_strict_eq_parse, c09_function_same_verdict_value and c09_struct_partial are their agreement theorems, the last two with witnesses for the excluded region), or ZodStringBool, whose two entry points have different domains by design (c09_table_run_only). c09_fam_strict_eq_parse / c09_fam_six_agree / c09_fam_struct_six_partial restate the agreement for TypeLocal.famParse / famStrict / famSix, the definitions the driver executes on the cpx lines (family = the row of the regenerated table). c09_history proves that in every history (constructors, any copy-on-write method, CloneFrom of both flavours in both directions, the six entry points called in any order any number of times) every entry point answers what Parse answers on the schema's current configuration, for any implementation whose per-schema state is Faithful; the pinned code is Faithful, a memoised flag copied by CloneFrom is not (memoising_stale_witness). Decided by the run: (1) the primitive model on String()/StringPtr() schemas with random check chains and modifier suffixes and on string / integer histories (all six observations predicted through Cpx.six over Prim.parse / Prim.strictParse); (2) the complex model on real schemas of the thirteen complex-path types: every cpx line carries the configuration read by reflection from the schema's Internals(), whether R is a pointer, what the input is to the engine (untyped nil, typed nil, a value, a pointer, refused) and what the type's validator answers on the input and on the prefault value (= the unmodified schema's answer), and the driver predicts P, S, A, MP, MS, MA through TypeLocal.famSix, compared with the real six entry points on a projection without message texts (results with their Go shape, errors as code@path lists, non-optional told apart) - under every modifier history of length <= 2 over the eight modifiers, on each sample as strict input, behind a pointer, as typed nil pointer, nil of R, untyped nil and foreign values; (3) on every schema type of the table the six entry points are compared with each other in the harness with full messages, on cold schemas and after histories; frame lines check by reflection that no field of core.ZodTypeInternals changes across a parse. A directed run starts from every zero-argument constructor of types/*.go (184; the registry is compared with the source on every run); its distribution (constructors, history lengths, variants, input classes) is printed into the evidence. Structure fingerprints of the 50 transcribed Go functions aim the run when one of them is edited.",
-   note="Trusted: Lean kernel; axioms propext/Classical.choice/Quot.sound at most; harness + comparer; the go/ast classification of method bodies (engine / fwd / must / inherit / own). The type-specific parts of the complex path are parameters of the model: the validator's answer comes from the run (the unmodified schema's Parse on the value - so for an unmodified schema on a plain value the prediction of P is that observation itself, and what the model adds there is S, A and the Must variants; under modifiers, on nil-like inputs, pointers, defaults and prefaults all six are genuine predictions); the harness' Overwrite is the identity, so the pointer pass of an overwrite (CEnv.firstPass) and the checks on a default / on nil are instantiated as 'nothing changes' - validatePointer's firstPass arm is therefore not exercised by the run; an engine-level Transform is not reachable through the public API. The result switch of the nine 'return z.Parse' types is modelled as Cpx.adapt and compared by the run only (fingerprinted, not pinned by text). ZodStruct's createStructTypeError is modelled under the projection (a root-level custom issue, or invalid_type for untyped nil). The Faithful hypotheses of c09_history are tied to the code by the frame observation. The four transcribed type-local pairs are pinned by statement text and by the fingerprints of their helpers. ZodStringBool is judged by the statement directly in the run (known finding). Deviations are listed as known findings by (type, Parse outcome class, StrictParse outcome class): stringbool (by design), function (pointer shape; pinned by the library's own test; predicted by funcParse / funcStrict). Pointer identity of results is C15's business and not compared here.",
+   note="Trusted: Lean kernel; axioms propext/Classical.choice/Quot.sound at most; harness + comparer; the go/ast classification of method bodies (engine / fwd / must / inherit / own). The type-specific parts of the complex path are parameters of the model: the validator's answer comes from the run (the unmodified schema's Parse on the value - so for an unmodified schema on a plain value the prediction of P is that observation itself, and what the model adds there is S, A and the Must variants; under modifiers, on nil-like inputs, pointers, defaults and prefaults all six are genuine predictions); the harness' Overwrite is the identity, so the pointer pass of an overwrite (CEnv.firstPass) and the checks on a default / on nil are instantiated as 'nothing changes' - validatePointer's firstPass arm is therefore not exercised by the run; an engine-level Transform is not reachable through the public API; a ZodFunction with an Overwrite check on a nil-like input is left to the in-harness comparison (convertResult answers with a pointer to a typed nil, a shape Cpx.Res cannot express). The result switch of the nine 'return z.Parse' types is modelled as Cpx.adapt and compared by the run only (fingerprinted, not pinned by text). ZodStruct's createStructTypeError is modelled under the projection (a root-level custom issue, or invalid_type for untyped nil). The Faithful hypotheses of c09_history are tied to the code by the frame observation. The four transcribed type-local pairs are pinned by statement text and by the fingerprints of their helpers. ZodStringBool is judged by the statement directly in the run (known finding). Deviations are listed as known findings by (type, Parse outcome class, StrictParse outcome class): stringbool (by design), function (pointer shape; pinned by the library's own test; predicted by funcParse / funcStrict). Pointer identity of results is C15's business and not compared here.",
    design="DESIGN.md §5 C09")
 
 MODULES = ["Gozod.Proofs.C09", "Gozod.Proofs.C09Complex", "Gozod.Proofs.C09Table", "Gozod.Proofs.C09TypeLocal"]
@@ -157,7 +157,7 @@ def _run(res):
     res.coverage["rule"] = ("(A) String()/StringPtr() with 0-5 random checks (built-ins, Trim/ToLower/ToUpper/custom overwrites, refinements with 35% abort) and 0-3 random modifiers "
         "(Optional/Nilable/Nullish/NonOptional/Default/DefaultFunc/Prefault/PrefaultFunc) on inputs nil, typed nil, value, pointer, foreign kinds; "
         "(B) every other schema type of the entry-point table (57 constructors), bare / with own checks / with a refinement / with an identity Overwrite on top, with 0-3 random modifiers applied by reflection, on every sample input convertible to the StrictParse parameter type plus its nil, and on ill-typed inputs of ten kinds for ParseAny / MustParse / MustParseAny; "
-        "(B2) directed: every zero-argument constructor of types/*.go (value / pointer / Coerced) in the variants plain / refined / +overwrite under the empty modifier history and one drawn history of length <= 2 (a type the table or a fingerprint reports as changed: under all 73 histories), on every sample of its family as R, as itself, behind a pointer, as the typed nil pointer of its type, on nil-of-R, untyped nil and 36 foreign values incl. netip.Addr, *netip.Addr, net.IP, time.Time, *big.Int, json.Number, []byte, a Stringer, an error, a func; "
+        "(B2) directed: every zero-argument constructor of types/*.go (value / pointer / Coerced) in the variants plain / refined / +overwrite under the empty modifier history and one drawn history of length <= 2 (a type the table or a fingerprint reports as changed: under all 73 histories), and always with a nil-FILLING Overwrite (nil -> the family's default value; identity elsewhere) bare / Optional / Nilable, on every sample of its family as R, as itself, behind a pointer, as the typed nil pointer of its type, on nil-of-R, untyped nil and 36 foreign values incl. netip.Addr, *netip.Addr, net.IP, time.Time, *big.Int, json.Number, []byte, a Stringer, an error, a func; "
         "(C) histories: two relatives A, B of one type; 1-4 warm-up calls of random entry points (half of them strict) on random heap cells with value / nil inputs; one or two derivation routes "
         "(the cell itself, a method discovered by reflection on a warm cell - modifiers, checks, accessors, And/Or wrappers -, CloneFrom between two cells in either direction, a fresh bare schema receiving a warm one); "
         "then the six entry points on the target in two random orders, and Parse / StrictParse on never-parsed twins when the warm ones disagree; one frame line per history; (D) the same histories over Int()/IntPtr() with Min/Max/Overwrite/Refine checks shipped in unary so that the string environment of the Lean machine predicts them with the keepChecks CloneFrom. distinct = distinct op lines.")
